@@ -48,7 +48,7 @@ ASSUMPTIONS = [
     "prefix comparison",
 ]
 
-MENU_Q = ["5", "-", ".", "e", "1e", "2", "#", "é", "\x00", ",", "z", "L", "a", "h", "1.", "--1", "1e999", "0", "-0"]
+MENU_Q = ["5", "-", ".", "e", "1e", "2", "#", "é", "\x00", ",", "z", "L", "a", "h", "1.", "--1", "1e999", "0", "-0", "T", "s"]
 MENU_T = MENU_Q + [" ", "M", "+", "Z1", "1e5", "T", "S", "v", "Q", " ", "0x1", "1e999", "nan", "inf"]
 
 
